@@ -16,6 +16,7 @@ import (
 	"os"
 	"path/filepath"
 	"reflect"
+	"runtime"
 	"strconv"
 	"strings"
 	"sync"
@@ -55,7 +56,7 @@ type MsgSpec struct {
 }
 
 type Step struct {
-	Op      string   `json:"op"` // msg | tun | shift | restart | load | burst | remove_race | sleep | align
+	Op      string   `json:"op"` // msg | tun | shift | restart | load | burst | remove_race | resp_window | sleep | align
 	Msg     *MsgSpec `json:"msg,omitempty"`
 	Peer    int      `json:"peer,omitempty"`
 	Inner   int      `json:"inner,omitempty"`
@@ -63,6 +64,11 @@ type Step struct {
 	SleepMs int      `json:"sleep_ms,omitempty"`
 	On      bool     `json:"on,omitempty"` // load: VerifForceUnderLoad on / off
 	K       int      `json:"k,omitempty"`  // burst: number of goroutines calling SendHandshakeInitiation(false) at once
+	// resp_window: Msg (a response) is delivered; while its handshake worker is between ConsumeMessageResponse and
+	// BeginSymmetricSession, WAct happens: "initiate" (SendHandshakeInitiation(false) for Peer), "shift_initiate"
+	// (VerifShiftHandshakeTimes(Peer, ShiftMs) first), "msg" (datagram WMsg goes through another handshake worker)
+	WAct string   `json:"wact,omitempty"`
+	WMsg *MsgSpec `json:"wmsg,omitempty"`
 }
 
 type Scenario struct {
@@ -150,6 +156,81 @@ func fieldRange(kind string, f int64) (int, int) {
 	return 0, 0
 }
 
+// parker turns the device's log line between ConsumeMessageResponse and BeginSymmetricSession
+// ("... - Received handshake response", RoutineHandshake) into a schedule-control point: when armed,
+// the handshake worker that logs it waits there (holding no lock) until released.
+type parker struct {
+	armed   atomic.Bool
+	parked  chan struct{}
+	release chan struct{}
+}
+
+func newParker() *parker {
+	return &parker{parked: make(chan struct{}, 1), release: make(chan struct{})}
+}
+
+func (k *parker) logger() *device.Logger {
+	return &device.Logger{
+		Verbosef: func(format string, args ...any) {
+			if strings.HasSuffix(format, "Received handshake response") && k.armed.CompareAndSwap(true, false) {
+				k.parked <- struct{}{}
+				<-k.release
+			}
+		},
+		Errorf: func(format string, args ...any) {},
+	}
+}
+
+var winStack = make([]byte, 16<<20)
+
+// windowQuiet: like sim.Quiesce, but usable while one handshake worker is parked inside the logger
+// callback (its top frame is not a device routine): sim queues and device queues empty and every
+// goroutine inside wireguard/device blocked, twice in a row.
+func (r *runner) windowQuiet(timeout time.Duration) bool {
+	deadline := time.Now().Add(timeout)
+	ok := 0
+	for ok < 2 {
+		idle := r.w.Bind.Idle() && r.w.Tun.Idle()
+		if idle {
+			e, d, h := r.w.Dev.VerifQueueLens()
+			idle = e == 0 && d == 0 && h == 0
+		}
+		if idle {
+			n := runtime.Stack(winStack, true)
+			for _, g := range strings.Split(string(winStack[:n]), "\n\n") {
+				if !strings.Contains(g, "wireguard/device.") || strings.Contains(g, "main.(*runner).windowQuiet") {
+					continue
+				}
+				hdr := g
+				if i := strings.IndexByte(g, '\n'); i >= 0 {
+					hdr = g[:i]
+				}
+				blocked := false
+				for _, st := range []string{"[chan receive", "[select", "[sync.WaitGroup.Wait", "[semacquire", "[sync.Cond.Wait", "[sync.RWMutex", "[sync.Mutex"} {
+					if strings.Contains(hdr, st) {
+						blocked = true
+					}
+				}
+				if !blocked {
+					idle = false
+					break
+				}
+			}
+		}
+		if idle {
+			ok++
+		} else {
+			ok = 0
+			if time.Now().After(deadline) {
+				return false
+			}
+			runtime.Gosched()
+		}
+		time.Sleep(50 * time.Microsecond)
+	}
+	return true
+}
+
 type builtMsg struct {
 	bytes []byte
 	desc  string // Gallina mk_msg term
@@ -182,6 +263,7 @@ type runner struct {
 	nextEph  int
 	lhLast   map[int]string
 	lhCount  map[int]int
+	park     *parker
 	lastAcc  map[int]int64 // harness time of the last accepted initiation per initiator
 	removed  map[int]bool
 	issued   map[int][]uint32 // every local index the device was seen to issue for a peer (initiation / response sender)
@@ -193,7 +275,8 @@ func newRunner() (*runner, error) {
 	a := cosim.NewPeer("A", "192.0.2.7:5555", "10.0.0.0/24")
 	b := cosim.NewPeer("B", "192.0.2.8:6666", "10.0.1.0/24")
 	b.Psk = ref.NewPrivate()
-	w, err := cosim.NewWorld(cosim.Config{Up: true}, true, a, b)
+	r.park = newParker()
+	w, err := cosim.NewWorldLogger(cosim.Config{Up: true}, true, r.park.logger(), a, b)
 	if err != nil {
 		return nil, err
 	}
@@ -671,6 +754,85 @@ func runScenario(sc Scenario) (Case, error) {
 				release()
 				<-done
 			}
+		case "resp_window":
+			if s.Msg == nil {
+				return c, fmt.Errorf("resp_window without msg")
+			}
+			b := r.build(s.Msg)
+			var wb *builtMsg
+			if b != nil && s.WAct == "msg" && s.WMsg != nil {
+				wb = r.build(s.WMsg)
+			}
+			if b == nil || (s.WAct == "msg" && wb == nil) {
+				o.Skipped = true
+				c.Obs = append(c.Obs, o)
+				continue
+			}
+			o.Desc = b.human
+			var wdesc string
+			var inwin func()
+			switch s.WAct {
+			case "initiate", "shift_initiate":
+				pk := cosim.NoisePK(r.pubs[s.Peer])
+				d := time.Duration(s.ShiftMs) * time.Millisecond
+				if s.WAct == "initiate" {
+					wdesc = fmt.Sprintf("(wi %d 1)", s.Peer)
+				} else {
+					wdesc = fmt.Sprintf("(wsi %d %d)", s.Peer, s.ShiftMs*1000000)
+				}
+				shift := s.WAct == "shift_initiate"
+				inwin = func() {
+					if shift {
+						r.w.Dev.VerifShiftHandshakeTimes(pk, d)
+					}
+					r.w.Dev.VerifC07SendHandshakeInitiation(pk, false)
+				}
+			case "msg":
+				ist = wb.ist
+				o.Desc += " || in window: " + wb.human
+				wdesc = fmt.Sprintf("(wm %d %s)", s.WMsg.Src, wb.desc)
+				wsrc, wdata := r.addrs[s.WMsg.Src], wb.bytes
+				inwin = func() { r.w.Bind.Inject(sim.Dgram{From: wsrc, Data: wdata}) }
+			default:
+				return c, fmt.Errorf("unknown wact %q", s.WAct)
+			}
+			body = fmt.Sprintf("(bw %d %s %s)", s.Msg.Src, b.desc, wdesc)
+			src, data := r.addrs[s.Msg.Src], b.bytes
+			act = func() {
+				r.park.armed.Store(true)
+				r.w.Bind.Inject(sim.Dgram{From: src, Data: data})
+				deadline := time.Now().Add(200 * time.Millisecond)
+				for {
+					select {
+					case <-r.park.parked:
+						// the worker sits between ConsumeMessageResponse and BeginSymmetricSession
+						if !r.windowQuiet(100 * time.Millisecond) {
+							c.Slow++
+						}
+						inwin()
+						if !r.windowQuiet(200 * time.Millisecond) {
+							c.Slow++
+						}
+						r.park.release <- struct{}{}
+						return
+					default:
+					}
+					// quiescent without having parked: the response was not consumable; sequential step
+					if sim.Quiesce(r.w.Dev, r.w.Bind, r.w.Tun, time.Millisecond) && r.park.armed.CompareAndSwap(true, false) {
+						inwin()
+						return
+					}
+					if time.Now().After(deadline) {
+						if r.park.armed.CompareAndSwap(true, false) {
+							c.Slow++
+							inwin()
+							return
+						}
+						// the worker took the flag just now: it is about to park
+						deadline = time.Now().Add(200 * time.Millisecond)
+					}
+				}
+			}
 		case "load":
 			body = fmt.Sprintf("(bl %v)", s.On)
 			d := time.Duration(0)
@@ -687,7 +849,7 @@ func runScenario(sc Scenario) (Case, error) {
 		hi := time.Now().UnixNano()
 		// A step that did not settle, or took longer than 15 ms (which would make the [5 ms, 40 ms]
 		// ambiguity window of the 20 ms flood gap unsound), invalidates the scenario: it is rerun.
-		if !out.Settled || (s.Op == "msg" && hi-lo > 15000000) {
+		if !out.Settled || ((s.Op == "msg" || s.Op == "resp_window") && hi-lo > 15000000) {
 			c.Slow++
 		}
 		gal, hum, oidx, its := r.describeOut(out, ist)
@@ -708,7 +870,14 @@ func runScenario(sc Scenario) (Case, error) {
 				r.lastAcc[s.Msg.From] = lo
 			}
 		}
-		if s.Op == "msg" {
+		if s.Op == "resp_window" && s.WAct == "msg" && s.WMsg.Kind == "init" {
+			for _, h := range hum {
+				if strings.HasPrefix(h, "response") {
+					r.lastAcc[s.WMsg.From] = lo
+				}
+			}
+		}
+		if s.Op == "msg" || s.Op == "resp_window" {
 			acc := false
 			for _, h := range hum {
 				if strings.HasPrefix(h, "response") || strings.HasPrefix(h, "transport") {
@@ -1011,6 +1180,65 @@ func (g *gen) superseded() Scenario {
 	rf := g.msg("reflect", p)
 	st = append(st, stepMsg(rf))
 	return Scenario{Gen: "superseded", Steps: st}
+}
+
+// An event inside the response-processing window of a handshake worker (between
+// ConsumeMessageResponse and BeginSymmetricSession), then the follow-ups the property's clauses judge.
+func (g *gen) respWindow(variant int) Scenario {
+	p := g.peer()
+	q := 3 - p
+	var st []Step
+	var j0 *MsgSpec
+	withJ0 := variant == 3 || g.r.Intn(3) == 0
+	if withJ0 {
+		// the peer's initiation answered earlier (responder session in next), then the device's own initiation
+		j0 = g.msg("init", p)
+		st = append(st, stepMsg(j0), stepShift(p, 6000))
+	}
+	st = append(st, stepTun(p, 64+g.r.Intn(60)))
+	if g.r.Intn(4) == 0 {
+		st = append(st, stepShift(p, 6000), stepTun(p, 70)) // a superseded initiation behind the pending one
+	}
+	r1 := g.msg("resp", p)
+	w := Step{Op: "resp_window", Msg: r1}
+	name := ""
+	switch variant {
+	case 0:
+		w.WAct, w.Peer, w.ShiftMs, name = "shift_initiate", p, 6000, "new-initiation"
+	case 1:
+		w.WAct, w.Peer, name = "initiate", p, "initiation-suppressed"
+	case 2:
+		if withJ0 {
+			st = append(st, stepSleep(45))
+		}
+		w.WAct, w.WMsg, name = "msg", g.msg("init", p), "peer-initiation"
+	case 3:
+		j := g.msg("init", p)
+		if g.r.Intn(2) == 0 {
+			j = replayOf(g, j0, 3)
+		} else {
+			j.TsOff = j0.TsOff - int64(g.r.Intn(2))
+		}
+		w.WAct, w.WMsg, name = "msg", j, "peer-initiation-replayed-or-older"
+	case 4:
+		w.WAct, w.WMsg, name = "msg", g.msg("init", q), "other-peer-initiation"
+	case 5:
+		w.WAct, w.Peer, w.ShiftMs, name = "shift_initiate", q, 6000, "other-peer-new-initiation"
+	default:
+		w.WAct, w.WMsg, name = "msg", g.msg("resp", p), "second-response"
+	}
+	st = append(st, w)
+	// follow-ups: the answer to the most recent initiation, replays, every issued index, a fresh initiation, data
+	r2 := g.msg("resp", p)
+	st = append(st, stepMsg(r2), stepMsg(replayOf(g, r1, 3)), stepMsg(replayOf(g, r2, p)))
+	for i := 0; i < 4; i++ {
+		x := g.msg("resp", p)
+		x.Muts = []Mut{{"receiver_issued", int64(i)}}
+		x.Remac = true
+		st = append(st, stepMsg(x))
+	}
+	st = append(st, stepTun(p, 70), stepSleep(45), stepMsg(g.msg("init", p)), stepMsg(g.msg("resp", p)), stepTun(p, 90))
+	return Scenario{Gen: "response-window-" + name, Steps: st}
 }
 
 func (g *gen) strangers() Scenario {
@@ -1385,6 +1613,11 @@ func generate(seed int64, n int, tier string, f7rounds int) []Scenario {
 		(*gen).rapidFireAcrossRestart, (*gen).rapidFireAcrossRestart, (*gen).rapidFireAcrossRestart, (*gen).rapidFireAcrossRestart,
 		(*gen).removalRace, (*gen).removalRace, (*gen).removalRace, (*gen).removalRace,
 		(*gen).sessionIndex, (*gen).sessionIndex, (*gen).sessionIndex, (*gen).bursts, (*gen).bursts, (*gen).bursts, (*gen).bursts}
+	for v := 0; v < 7; v++ {
+		v := v
+		fixed = append(fixed, func(g *gen) Scenario { return g.respWindow(v) })
+	}
+	fixed = append(fixed, func(g *gen) Scenario { return g.respWindow(0) }, func(g *gen) Scenario { return g.respWindow(2) })
 	for _, f := range fixed {
 		scs = append(scs, f(mk()))
 	}
@@ -1410,8 +1643,10 @@ func generate(seed int64, n int, tier string, f7rounds int) []Scenario {
 			scs = append(scs, mk().underLoad())
 		case x < 88:
 			scs = append(scs, mk().restartReplay())
-		case x < 93:
+		case x < 91:
 			scs = append(scs, mk().sessionIndex())
+		case x < 93:
+			scs = append(scs, mk().respWindow(r.Intn(7)))
 		case x < 95:
 			scs = append(scs, mk().rapidFire())
 		case x < 97:
